@@ -146,6 +146,11 @@ class BatchProcessor:
         # Remove padding if needed
         if self.n_pad > 0:
             return results[: -self.n_pad]
+        # Without padding the reshaped array is still sharded across the pmapped
+        # devices and cannot be broadcast to them again; gather it on one device
+        devices = results.devices()
+        if len(devices) > 1:
+            results = jax.device_put(results, min(devices, key=lambda d: d.id))
         return results
 
     @property
